@@ -9,6 +9,7 @@ import (
 	"fmt"
 	"math/big"
 	"os"
+	"runtime"
 	"sync"
 	"time"
 
@@ -99,9 +100,57 @@ func NewOut(path, prefix string) (*Out, func()) {
 	return o, func() { o.w.Flush(); f.Close() }
 }
 
+// the case being executed, for the watchdogs
+var curMu sync.Mutex
+var curCase *Case
+var curOut *Out
+var mustExit bool
+
+func setCurrent(o *Out, c *Case) {
+	curMu.Lock()
+	curOut, curCase = o, c
+	curMu.Unlock()
+}
+
+// abortWith records the current case as a hang / memory blow-up and ends the process: a runaway goroutine cannot be stopped any other way.
+func abortWith(class string) {
+	curMu.Lock()
+	o, c := curOut, curCase
+	curMu.Unlock()
+	if o != nil && c != nil {
+		cc := *c
+		cc.Impl = J{"err": "hang"}
+		cc.Prop = &PropRes{OK: false, Why: class + ": the call did not return in bounded time/memory"}
+		cc.Tags = append(cc.Tags, "abort:"+class)
+		cc.NT = true
+		mustExit = false
+		o.Emit(cc)
+		o.mu.Lock()
+		o.w.Flush()
+	}
+	os.Exit(3)
+}
+
+func startMemWatchdog(limit uint64) {
+	go func() {
+		var ms runtime.MemStats
+		for {
+			time.Sleep(100 * time.Millisecond)
+			runtime.ReadMemStats(&ms)
+			if ms.HeapAlloc > limit {
+				abortWith("memory")
+			}
+		}
+	}()
+}
+
 func (o *Out) Emit(c Case) {
 	o.mu.Lock()
 	defer o.mu.Unlock()
+	if mustExit {
+		// a watchdog fired during this case: record it, then stop (the stuck goroutine keeps burning CPU and memory)
+		defer func() { o.w.Flush(); os.Exit(3) }()
+	}
 	o.n++
 	if c.ID == "" {
 		c.ID = fmt.Sprintf("%s-%d", o.pf, o.n)
@@ -162,6 +211,7 @@ func guard[T any](timeout time.Duration, f func() (T, error)) (res T, err error)
 		return x.v, x.e
 	case <-time.After(timeout):
 		var z T
+		mustExit = true
 		return z, errHang
 	}
 }
@@ -252,3 +302,5 @@ func hSmall(p int64) HSpec {
 func allHashers() []HSpec {
 	return []HSpec{hPoseidon(), hSalted(), hShifted(), hSmall(251), hSmall(65537), hSmall(2305843009213693951)}
 }
+
+func jsonUnmarshal(b []byte, v any) error { return json.Unmarshal(b, v) }
